@@ -153,7 +153,9 @@ CLAIMED = {
              "that object: status-only (C15_StatusOnly), right version and outcome (C15_RightVersion/RightOutcome), no deleted "
              "object re-created (C15_NoResurrect), Done objects not updated again (C15_NotPendingNotUpdated), Prune only when "
              "initialized and with the complete table of its snapshot (C15_Prune*). drv_rec places update / delete / delete+re-insert / "
-             "status-only writes of a second writer between an operation and its status commit, for every outcome.",
+             "status-only writes of a second writer (through the shared reconciler.StatusSet where the objects carry one) between an "
+             "operation and its status commit, for every outcome; every commit and quiescence event carries the whole table as it "
+             "reads then, which must be what the logged commits put there (C15_NewerOverwritten).",
         note='TLC 1.8; virtual time (testing/synctest), instantaneous operations, refresh loop enabled in family refresh and a fifth of the other scripts; every commit to the reconciled table is observed at its linearization point through the verif hook commit.stored; sampled environment scripts (<= 4 objects, <= 6 failures).',
         technique="TLA+ trace specification RecTrace.tla (monitor) checked by TLC on logs of the real reconciler under virtual time",
         design_ref="4.9, 5.5, 7 (C15)"),
